@@ -54,6 +54,12 @@ func c04Record(c *fw.Case, bufSize int) []byte {
 		}
 		return p[:n]
 	}
+	if r.Intn(40) == 0 {
+		// a payload that is mostly a long run of ZERO bytes (zeros are data, not padding)
+		p := append(gen.Payload(r, 20), make([]byte, 8192+r.Intn(6000))...)
+		c.Obs("records_with_a_zero_run_of_two_windows", 1)
+		return append(p, gen.Payload(r, 20)...)
+	}
 	switch r.Intn(12) {
 	case 0:
 		return nil
@@ -90,6 +96,45 @@ func endsInMarkerPrefix(b []byte) bool {
 // end-of-file.
 func c04PaddingSweep(c *fw.Case) {
 	dir := c.DiskDir()
+	// a writer buffer LARGER than the default: the padding behind one small record is close to 8 MiB
+	{
+		path := filepath.Join(dir, "pad8.rio")
+		rec := gen.Payload(c.R, 100)
+		w, err := recordio.NewFileWriter(recordio.Path(path), recordio.DirectIO(), recordio.BufferSizeBytes(8*1024*1024))
+		if err == nil {
+			err = w.Open()
+		}
+		if err == nil {
+			_, err = w.Write(rec)
+		}
+		if err == nil {
+			err = w.Close()
+		}
+		if err != nil {
+			c.Violate("recordio/direct-io/open-error", "8 MiB buffer: %v", err)
+			return
+		}
+		rd, err := recordio.NewFileReaderWithPath(path)
+		if err == nil {
+			err = rd.Open()
+		}
+		if err != nil {
+			c.Violate("recordio/seq/open", "8 MiB direct-I/O buffer: %v", err)
+			return
+		}
+		got, err := rd.ReadNext()
+		if err != nil || !bytes.Equal(got, rec) {
+			c.Violate("recordio/seq/wrong-record/directio", "8 MiB direct-I/O buffer: first ReadNext = (%d bytes,%v)", len(got), err)
+		} else if _, err := rd.ReadNext(); !errors.Is(err, io.EOF) {
+			c.Violate("recordio/seq/no-eof/directio/padding", "file written through an 8 MiB direct-I/O buffer (one small record, the rest zero padding): ReadNext after the record returned %v instead of EOF", err)
+		}
+		_ = rd.Close()
+		_ = os.Remove(path)
+		c.Obs("directio_files_with_megabytes_of_padding", 1)
+		if c.Violated() {
+			return
+		}
+	}
 	for comp := 0; comp < 2; comp++ {
 		for L := 4096 - 8 - 32; L <= 4096-8+2; L++ {
 			path := filepath.Join(dir, "pad.rio")
